@@ -17,6 +17,8 @@ class CH:
     symbolic: str = ""  # which inputs stay symbolic values (vs. shape selectors)
     stubs: list[str] = field(default_factory=list)
     env: dict = field(default_factory=dict)
+    # partitions are a cartesian product of selector values: combinations the decoder rejects outright are empty, not vacuous
+    allow_empty: bool = False
 
 
 @dataclass
